@@ -252,6 +252,117 @@ def r13_3(ck, F):
                   f"handle_event arms {sorted(arms)} do not cover {sorted(variants)} explicitly", hb.loc(sw))
 
 
+def _strip_conv(e):
+    """Look through clone / borrow / conversions / casts: the value an operand carries."""
+    while True:
+        e = mir.strip_casts(e)
+        if isinstance(e, tuple) and e and e[0] == "call" and e[2] and \
+                e[1].split("::")[-1] in ("clone", "borrow", "to_owned", "into", "as_ref", "deref", "from"):
+            e = e[2][0]
+            continue
+        return e
+
+
+def _region_exprs(b, region):
+    """Expression trees of everything a region computes with: call arguments, assigned rvalues, aggregate operands."""
+    for bb in region:
+        for st in b.stmts(bb):
+            rv = st.get("rv") if isinstance(st, dict) else None
+            if not rv:
+                continue
+            for o in ([rv.get("o")] if rv.get("o") else []) + [rv.get("a"), rv.get("b")] + list(rv.get("ops", [])):
+                if o:
+                    yield b.expr(o)
+            if rv.get("p"):
+                yield b.expr(rv["p"])
+        t = b.term(bb)
+        if t["t"] == "call":
+            for a in t["a"]:
+                yield b.expr(a)
+        elif t["t"] == "switch" and t["o"][0] != "k":
+            yield b.expr(t["o"])
+
+
+def r13_3b(ck, F):
+    ck.rule("R13.3b", "emit <-> apply argument agreement: where an emitting method passes the same value both to a std "
+            "mutator of the observed collection (argument j) and into the event (field i), the mirror's arm applies the "
+            "same std mutator with argument j taken from field i unchanged; and every field of an event is consumed by "
+            "its handle_event arm",
+            "an event whose index / length / value is applied at another position than it was produced for (Insert(i, v) "
+            "applied as insert(i + 1, v), Truncate(n) emitted with the old length, a field ignored by the arm): the mirror "
+            "differs after the first such event", floor=30)
+    for adt, (file, inner, ev, mirror_inner, sub, mirrored) in OBSERVABLES.items():
+        if inner is None:
+            continue
+        hb = F.body(f"{mirror_inner}::handle_event")
+        arms, sw, _ = event_arms(hb, ev)
+        hm = std_mutators(hb, {inner})
+        short = adt.split("::")[-1]
+        # (c) every field of a variant is consumed in its arm
+        for v in F.adt(ev)["variants"]:
+            if v["name"] not in arms or not v["fields"]:
+                continue
+            region = arms[v["name"]][2]
+            paths = set()
+            for e in _region_exprs(hb, region):
+                paths.update(mir.paths_in(e))
+            for i, fld in enumerate(v["fields"]):
+                pref = f"event.@{v['name']}.{fld.get('name', i) if isinstance(fld, dict) else i}"
+                used = any(p == pref or p.startswith(pref + ".") for p in paths)
+                ck.expect(used, f"{mirror_inner.split('::')[-1]}::{v['name']}#field{i}-used",
+                          f"field {i} of {v['name']} is consumed by the arm",
+                          f"the {v['name']} arm of {mirror_inner}::handle_event never uses field {i} of the event", hb.loc(arms[v['name']][1]))
+        # (a)+(b) argument correspondence for identical std mutators
+        for dp, (root, bodies) in sorted(_groups(F, file).items()):
+            f = F.fns.get(root.path) or F.fns.get(mir.strip_generics(root.path))
+            owner = (f or {}).get("impl_adt") or ""
+            if "Mirrored" in owner or "Subscription" in owner or "InitialValue" in owner:
+                continue
+            for b in bodies:
+                ms = std_mutators(b, {inner, "inner"})
+                for ebb, ei, rv in b.aggregates(ev):
+                    if rv["variant"] not in arms:
+                        continue
+                    fe = [_strip_conv(b.expr(o)) for o in rv["ops"]]
+                    region = arms[rv["variant"]][2]
+                    for mb, c in ms:
+                        mm = [xb for xb, c2 in hm if xb in region and c2 == c]
+                        if not mm:
+                            continue
+                        ae = [_strip_conv(b.expr(a)) for a in b.term(mb)["a"][1:]]
+                        pairs = [(i, j) for i, x in enumerate(fe) for j, y in enumerate(ae)
+                                 if x[0] not in ("const", "constdef") and mir.same_value(x, y)]
+                        site = f"{mir.strip_generics(b.path)}#{rv['variant']}-{c.split('::')[-1]}"
+                        # emit side: every argument of the mutator that the mirror takes from a field must be that field here
+                        for xb in mm:
+                            margs = [_strip_conv(hb.expr(a)) for a in hb.term(xb)["a"][1:]]
+                            for j, me in enumerate(margs):
+                                src = mir.show(me)
+                                fields_used = [i for i in range(len(fe)) if src == f"event.@{rv['variant']}.{i}"]
+                                want = [i for i, jj in pairs if jj == j]
+                                if want:
+                                    ck.expect(fields_used == want[:1] or (fields_used and fields_used[0] in want), f"{site}#arg{j}",
+                                              f"{c.split('::')[-1]} argument {j} = event field {want[0]} on both sides",
+                                              f"{short}: the emitting method passes the same value as argument {j} of {c} and as field "
+                                              f"{want[0]} of {rv['variant']}, but the mirror applies {c.split('::')[-1]} with argument {j} = {src}",
+                                              hb.loc(xb), {"emit": b.loc(mb), "event": b.loc(ebb, ei)})
+                                elif fields_used and j < len(ae):
+                                    # the mirror feeds field i into argument j, but the emitter's field i is not its own argument j
+                                    i = fields_used[0]
+                                    if fe[i][0] in ("const", "constdef") or ae[j][0] in ("const", "constdef", "agg", "fn"):
+                                        continue
+                                    if mir.calls_in(fe[i]) or mir.calls_in(ae[j]):
+                                        # e.g. Resize(self.v.len(), ..) sent after the resize: equal by a fact about the
+                                        # collection that this rule does not derive
+                                        ck.inconclusive(f"{site}#arg{j}", f"event field {i} = {mir.show(fe[i])[:50]} and mutator argument "
+                                                        f"{j} = {mir.show(ae[j])[:50]} are computed values; equality not decided", b.loc(ebb, ei))
+                                        continue
+                                    ck.bad(f"{site}#arg{j}",
+                                           f"{short}: the mirror applies {c.split('::')[-1]} with argument {j} = field {i} of {rv['variant']}, but "
+                                           f"the emitting method passes {mir.show(ae[j])[:60]} to the mutator and {mir.show(fe[i])[:60]} into the event",
+                                           b.loc(ebb, ei), {"emit": b.loc(mb), "apply": hb.loc(xb)})
+
+
 def r13_4(ck, F):
     ck.rule("R13.4", "snapshot and event subscription are taken together: Observable*::subscribe / "
             "subscribe_incremental are non-async &self methods that clone the contents and subscribe to the event "
@@ -395,7 +506,7 @@ def r13_7(ck, F):
 
 
 def run(ck, F):
-    for r in (r13_1, r13_2, r13_3, r13_4, r13_5, r13_6, r13_7):
+    for r in (r13_1, r13_2, r13_3, r13_3b, r13_4, r13_5, r13_6, r13_7):
         ck.run_rule(r)
 
 
